@@ -19,7 +19,7 @@ func (c15) Name() string { return "c15" }
 func (c15) Rule() string {
 	return "one generated world per run (workspace or not; main.journal including a.journal and b.journal; >= 2 commodities out of balance in one transaction; payees shared between files with different posting templates; accounts, tags and dates with equal usage counts; 2..3 open documents) and one fixed script of requests (completion in account/payee/commodity/tag/date context, hover, definition, references, rename, documentSymbol, workspace/symbol, inlineCompletion, formatting, semanticTokens, foldingRange), each request issued twice; in 40% of the runs the root journal first drops its include lines and takes them back (both included files re-enter the tree with one edit), and in half of the non-canonical variants documents reach their contents by another legal route (open, close unsaved, open again; open with other text and change to the contents at once). The script runs on V fresh servers (V = 6 quick, 16 thorough): variant 0 with canonical (sorted) map iteration and sequential scheduling, the others with a seeded permutation of EVERY map iteration of the repository's code (and sync.Map.Range) and a seeded background schedule. Oracle: the canonical serialisation of everything the client received at quiescent points (each response, last diagnostics per URI including message text) is identical across variants and between the two repetitions. On a mismatch the permutation is narrowed to single range sites to name the culprit statements. Non-trivial: >= 1 variant applied a permutation at a site that was reached. Distinct: hash of the world + set of sites permuted."
 }
-func (c15) Enumerated(string) int           { return 0 }
+func (c15) Enumerated(string) int            { return 0 }
 func (c15) Components() ([]string, []string) { return serverComponents() }
 
 type c15req struct {
